@@ -6,6 +6,8 @@ _ENUM = {'DFA': '(over(L.Sigma, w) and wlen(w) <= n and dfa_accepts(L, w))',
          'Regexp': '(wlen(w) <= n and mem(w, L(L_)))'}
 contract(M, 'generate_language', {'L': 'DFA', 'n': 'Int'}, returns='Set[Word]', variant='DFA', requires=['dfa_wf(L)', 'n >= 0'],
          ensures=['all((w in result) == %s for w in allwords())' % _ENUM['DFA']], theories=['word', 'dfa'], props=['C02', 'C12'])
+contract(M, 'generate_language', {'L': 'NFA', 'n': 'Int'}, returns='Set[Word]', variant='NFA', requires=['nfa_wf(L)', 'n >= 0'],
+         ensures=['all((w in result) == (over(L.Sigma, w) and wlen(w) <= n and nfa_accepts(L, w)) for w in allwords())'], theories=['word', 'nfa'], props=['C02', 'C12'])
 contract(M, 'generate_language', {'L': 'TM', 'n': 'Int'}, returns='Set[Word]', variant='TM', requires=['tm_wf(L)', 'n >= 0'],
          ensures=['all((w in result) == %s for w in allwords())' % _ENUM['TM']], theories=['word', 'tm'], props=['C02', 'C12'])
 contract(M, 'generate_language', {'L': 'Regexp', 'n': 'Int'}, returns='Set[Word]', variant='Regexp', requires=['n >= 0'],
@@ -34,15 +36,16 @@ contract(M, 'compare_languages', {'A1': 'Set[Word]', 'A2': 'Set[Word]'}, returns
          note='trusted builtin contract B-sorted for sorted(S, key=len); the message texts are uninterpreted functions of the reported word')
 
 # the comparison used by most checkers: enumerate both sides up to the bound, compare.  Typed entry points for the pairs of kinds that the
-# enumerators under contract cover (the other kinds go through the same code with enumerators that are only checked by the bounded stand-ins)
+# enumerators under contract cover (PDA and CFG arguments go through the same code with enumerators that are only checked by the bounded stand-ins)
 _IN = {'DFA': lambda L: '(over(%s.Sigma, w) and wlen(w) <= length and dfa_accepts(%s, w))' % (L, L),
+       'NFA': lambda L: '(over(%s.Sigma, w) and wlen(w) <= length and nfa_accepts(%s, w))' % (L, L),
        'TM': lambda L: '(over(%s.Sigma, w) and wlen(w) <= length and tm_accepted(%s, w, 1000))' % (L, L),
        'Regexp': lambda L: '(wlen(w) <= length and mem(w, L(%s)))' % L,
        'Set[Word]': lambda L: '(w in %s)' % L}
-_PRE = {'DFA': lambda L: ['dfa_wf(%s)' % L], 'TM': lambda L: ['tm_wf(%s)' % L], 'Regexp': lambda L: [], 'Set[Word]': lambda L: []}
-_TH = {'DFA': ['dfa'], 'TM': ['tm'], 'Regexp': ['regexp', 'wordx'], 'Set[Word]': []}
-for _k1 in ('DFA', 'TM', 'Regexp', 'Set[Word]'):
-    for _k2 in ('DFA', 'TM', 'Regexp', 'Set[Word]'):
+_PRE = {'DFA': lambda L: ['dfa_wf(%s)' % L], 'NFA': lambda L: ['nfa_wf(%s)' % L], 'TM': lambda L: ['tm_wf(%s)' % L], 'Regexp': lambda L: [], 'Set[Word]': lambda L: []}
+_TH = {'DFA': ['dfa'], 'NFA': ['nfa'], 'TM': ['tm'], 'Regexp': ['regexp', 'wordx'], 'Set[Word]': []}
+for _k1 in ('DFA', 'NFA', 'TM', 'Regexp', 'Set[Word]'):
+    for _k2 in ('DFA', 'NFA', 'TM', 'Regexp', 'Set[Word]'):
         contract(M, 'check_equal_languages', {'L1': _k1, 'L2': _k2, 'length': 'Int'}, returns='List[Text]', variant='%s-%s' % (_k1.split('[')[0], _k2.split('[')[0]),
                  defaults={'length': '4'}, requires=_PRE[_k1]('L1') + _PRE[_k2]('L2') + ['length >= 0'],
                  ensures=['(len(result) == 0) == all(%s == %s for w in allwords())' % (_IN[_k1]('L1'), _IN[_k2]('L2')),
